@@ -538,6 +538,8 @@ static void write_value(void* p, int64_t v, int pal = -1) { if (!p) return; if (
 
 struct VJob : NonTemplateJob {
     uint32_t forced = 0;
+    bool skip_odd = false;      // a user filter: version chunks with an odd index are not for this job
+    bool extraChunkFilterCheck(const Archetype&, ChunkIndex c) const noexcept override { return !skip_odd || c.toInt() % 2 == 0; }
     TasksCount taskCount(World& w, uint32_t n) const noexcept override { return forced ? TasksCount::make(forced) : NonTemplateJob::taskCount(w, n); }
 };
 // ---- typed jobs (PerEntityJob<T>: the generated per-entity invocation with its 4x unrolled loop) ----
@@ -783,8 +785,8 @@ static std::string run_script(const std::vector<std::string>& lines, std::ostrea
             d.job_do.push_back(rest); }
         else if (op == "valid") { std::string h; in >> h; R << (em.isEntityValid(parse_handle(h)) ? 1 : 0); }
         else if (op == "archof") { std::string h; in >> h; auto* a = em.getArchetypeOf(parse_handle(h)); if (a) R << a->id().toInt(); else R << "null"; }
-        else if (op == "mkjob") { // mkjob <entity 0/1> <reqs: pal:flags ...> c <check pals...>   flags: 1 const, 2 optional
-            int want_entity; in >> want_entity; auto job = std::make_unique<VJob>(); job->require_entity = want_entity != 0;
+        else if (op == "mkjob") { // mkjob <entity 0/1, +2: skips odd version chunks> <reqs: pal:flags ...> c <check pals...>   flags: 1 const, 2 optional
+            int want_entity; in >> want_entity; auto job = std::make_unique<VJob>(); job->require_entity = (want_entity & 1) != 0; job->skip_odd = (want_entity & 2) != 0;
             std::string tok; bool chk = false;
             while (in >> tok) {
                 if (tok == "c") { chk = true; continue; }
@@ -797,6 +799,7 @@ static std::string run_script(const std::vector<std::string>& lines, std::ostrea
                 R << (i ? "," : "") << r.id.toInt() << ":" << ((r.is_const ? 1 : 0) | (r.is_required ? 0 : 2)); }
             R << " chk=";
             { bool first = true; for (auto id : job->version_check_mask.items()) { R << (first ? "" : ",") << id.toInt(); first = false; } if (first) R << "-"; }
+            if (job->skip_odd) R << " xodd=1";
             d.jobs.push_back(std::move(job));
         }
         else if (op == "runjob") { // runjob <j> <mode 0 current thread, 1 parallel> [forced task count]
